@@ -1,5 +1,5 @@
 (* allow-axioms:  *)
-From RRE Require Import Base.Sx Base.Float Base.Num Model.ExprShape Model.Forward Model.ForwardSpec Model.Backward Proofs.BackwardProofs.
+From RRE Require Import Base.Sx Base.Float Base.Num Model.ExprShape Model.Forward Model.ForwardSpec Model.Backward Proofs.BackwardProofs Proofs.BackwardEquivProofs.
 Open Scope Z_scope.
 From RRE Require Import Properties.C11.
 Check (C11_memo_never_changes_an_answer : forall rules max_depth,
@@ -8,3 +8,10 @@ Check (C11_memo_never_changes_an_answer : forall rules max_depth,
     fst (snd (equery rules max_depth e q goal f)) = fst (dfs rules max_depth goal f)
     /\ memo_sound rules max_depth (fst (equery rules max_depth e q goal f))).
 Check (C11_fresh_engine_sound : forall rules max_depth, memo_sound rules max_depth {| memo := [] |}).
+Check (C11_verdict_depends_only_on_lookups : forall rules max_depth goal f f',
+  (forall k, fget f k = fget f' k) -> fst (dfs rules max_depth goal f) = fst (dfs rules max_depth goal f')).
+Check (C11_memo_key_determines_lookups : forall f f',
+  dstore f -> dstore f' -> enc_facts f = enc_facts f' -> forall k, fget f k = fget f' k).
+Check (C11_history_is_fresh : forall rules max_depth qs,
+  (forall q goal f, In (q, goal, f) qs -> dstore f /\ dec_bcond q = Some goal) ->
+  equeries rules max_depth {| memo := [] |} qs = map (fun '(q, goal, f) => fst (dfs rules max_depth goal f)) qs).
